@@ -86,6 +86,13 @@ func runC16(c *core.Ctx) {
 
 	c.Doc("C16.mailbox", "mailboxes are never closed (Receive sends to a mailbox after releasing the service lock)", 1)
 	ruleMailboxNeverClosed(c)
+
+	// a client-side object is terminated through the closer of its handler: removing the
+	// handler runs the closer, exactly once (rule shared with C17)
+	if a := getEP(c, "C16.anchors"); a != nil {
+		c.Doc("C17.close-owner", "a handler queue is closed only by Handler.closeWith, after its closer ran", 1)
+		ruleCloseOwner(c, a, "C17.close-owner")
+	}
 }
 
 type tableWrite struct {
